@@ -21,7 +21,7 @@ parameters and assignments, and component membership (names per component name, 
 (b) numerically, under slot names of each module's own index functions, rhs, monitor_values and one explicit_euler and
 generalized_rush_larsen step (dt 0.01) of the numpy modules generated from the original and the reloaded model at up to 4
 (thorough 6) points from modelgen.valid_points (default point + random/special points where the independent reference
-evaluator is finite and not near a discontinuity); tolerance rtol 1e-9 + 1e-12 x cancellation scale, and a mismatch is
+evaluator is finite, inside the real domain and not near a discontinuity); tolerance rtol 1e-9 + atol 1e-12 x (1 + largest operand), and a mismatch is
 only reported when it exceeds 100 x the original module's own sensitivity to a 1e-12 relative input perturbation.
 Models: 46 hand-written texts (one per construct named in the property: exp(1), negated comparisons, nested
 conditionals, And/Or with 2..4 operands, rational exponents, extreme literals, pi/time, Mod/floor/abs,
@@ -32,7 +32,10 @@ small share of imported models (example.mmt, noble_1962.cellml, three inline .mm
 ToRORd_dynCl_mid.cellml): import -> save -> reload must succeed and keep declarations, then the saved text itself
 is round-tripped with the full comparison.  One case = one model round trip.  Non-trivial: the model has an intermediate or
 an expression of depth >= 2 and the numeric comparison was reached at >= 1 point; distinct by sha1(model text).
-Failing models are delta-debugged (shrink.py) before being reported."""
+General models never have `pi` inside the argument of sin/cos/tan (known sympy problem: an evaluating trigonometric function of an unevaluated
+sum containing pi drops terms); the hand-written pi-trig-* texts are the dedicated probes and a numeric difference of a model with pi inside a
+trigonometric argument is reported as C11:rhs-changed / monitor-changed:trig-of-unevaluated-sum-with-pi.  A sixth of the generated models has
+intermediates that mention a d<state>_dt name.  Failing models are delta-debugged (shrink.py) before being reported."""
 
 DT = 0.01
 HEAD = "parameters(a=2.0, b=0.5)\nstates(x=1.5, y=2.0)\n"
@@ -73,6 +76,11 @@ HAND = {
     "lit-exprs": _e("1e300*(x*1e-300) + 1.5e-7*y + 12345678.9 - 12345678.5*x + 1E-2*x + .5*y + 5.*x"),
     "lit-digits": _e("0.1234567890123456*x + 3.141592653589793*y + 1.0000000000000002*x*y"),
     "pi-time": _e("pi*x + time - 0.1*t*y + sin(2*pi*t)"),
+    # dedicated probes of the KNOWN sympy problem (pi inside a trigonometric argument): differences are reported as ...:trig-of-unevaluated-sum-with-pi
+    "pi-trig-sum": _e("cos(2 - pi + a) + sin(x + pi + y)"),
+    "pi-trig-nested": _e("cos(x + (2 - pi)) + sin((x + pi) + y) + tan(x + (pi + y))"),
+    "pi-trig-half": _e("cos(pi/2 + x + y) - sin(y + 2*pi + x) + cos(pi - x - y)"),
+    "pi-trig-inter": _m("i1 = 2 - pi + x", "i2 = cos(i1 + y) + sin(i1)", "dx_dt = i2 + cos(i1)", "dy_dt = a - b*y"),
     "mod-floor-abs": _e("Mod(x, 3) + Mod(-y, 0.7) + floor(1.3*y) + abs(x - y) + Abs(y - 5) + floor(-x)"),
     "ccond": _e("ContinuousConditional(Gt(x, 1), 2, 3, 0.5) + ContinuousConditional(Lt(x, y), x, y, 0.1) + ContinuousConditional(Ge(y, 1), x, 0, 2) + ContinuousConditional(Le(x, 2), 1, y, 1.0)"),
     "functions": _e("exp(-x)*log(y) + ln(y) + sqrt(y) + sin(x)*cos(y) - tan(0.3*x) + asin(0.3*x) + acos(0.2*y) - atan(x*y)"),
@@ -133,7 +141,7 @@ def cases(tier, seed, focus):
 
 def gen_case(seed, i, npts):
     k = seed * 100003 + i
-    opts = {"force": list(mg.feature_cycle(k)), "own": 0.4, "depth": 3 if i % 3 == 0 else 2}
+    opts = {"force": list(mg.feature_cycle(k)), "own": 0.4, "depth": 3 if i % 3 == 0 else 2, "deriv_ref": 0.15}
     if i % 5 == 4:
         opts.update({"n_states": [3, 6], "n_inter": [4, 10], "n_comps": [2, 4], "n_params": [2, 6]})
     return {"mseed": k, "opts": opts, "npts": npts, "limit": 8 if npts <= 4 else 30, "tags": ["C11"]}
@@ -314,7 +322,7 @@ def compare_numeric(ode, o2, text, points, res, add, ref):
         scale = max([scale] + [abs(v) for v in pt["states"].values()] + [abs(x) for x in v1["rhs"].values()])
         sens = None
         for what in v1:
-            bad = {n: v2[what].get(n) for n, w in v1[what].items() if n not in v2[what] or not cm.close(v2[what][n], w, 1e-9, 1e-12 * scale + 1e-300)}
+            bad = {n: v2[what].get(n) for n, w in v1[what].items() if n not in v2[what] or not cm.vclose(v2[what][n], w, scale)}
             if not bad:
                 continue
             if sens is None:  # the original's own sensitivity to 1e-12 relative input perturbations
@@ -332,12 +340,13 @@ def compare_numeric(ode, o2, text, points, res, add, ref):
                 cm.note(res, "ill-conditioned-difference-ignored")
                 continue
             names = sorted(real)
+            pi_terr = ref is not None and ref.has_pi_in_trig()  # territory of the known sympy problem: never a general model
             if what == "rhs":
-                sig = f"C11:rhs-changed:{cm.main_feature(text, ['d' + n + '_dt' for n in names]) if ref is not None else 'unknown'}"
+                sig = f"C11:rhs-changed:{'trig-of-unevaluated-sum-with-pi' if pi_terr else cm.main_feature(text, ['d' + n + '_dt' for n in names]) if ref is not None else 'unknown'}"
                 base = "C11:rhs-changed"
             elif what == "monitor":
                 base = "C11:monitor-changed"
-                sig = f"{base}:{cm.main_feature(text, names) if ref is not None else 'unknown'}"
+                sig = f"{base}:{'trig-of-unevaluated-sum-with-pi' if pi_terr else cm.main_feature(text, names) if ref is not None else 'unknown'}"
             else:
                 sig = base = f"C11:scheme-changed:{what.split(':')[1]}"
             add(sig, f"{what} values of {names[:4]} differ between the original and the reloaded model", {n: v1[what][n] for n in names[:6]}, {n: real[n] for n in names[:6]},
